@@ -353,6 +353,7 @@ typedef struct {
   char oracle[512];
   char out[512];
   pieces_t src, dst, parts;
+  int noupdate;        // hashers: take the checksum without any update call (empty input only)
   int srcmode_fresh;   // 0 view, 1 fresh
   int dstmode_compact; // 0 grow, 1 compact
   int wb_max;
@@ -412,6 +413,7 @@ static int parse_job(char* line, job_t* j) {
     else if (!strcmp(k, "src")) parse_pieces(&j->src, v);
     else if (!strcmp(k, "dst")) parse_pieces(&j->dst, v);
     else if (!strcmp(k, "parts")) parse_pieces(&j->parts, v);
+    else if (!strcmp(k, "noupdate")) j->noupdate = atoi(v);
     else if (!strcmp(k, "srcmode")) j->srcmode_fresh = !strcmp(v, "fresh");
     else if (!strcmp(k, "dstmode")) j->dstmode_compact = !strcmp(v, "compact");
     else if (!strcmp(k, "wb")) j->wb_max = !strcmp(v, "max");
@@ -837,9 +839,12 @@ static void run_hasher(const job_t* j, const decoder_t* d, void* obj, const uint
   wuffs_base__bitvec256 bv;
   memset(&bv, 0, sizeof bv);
   // each piece is copied into an exact-size buffer so that ASan sees overreads
-  do {
+  // noupdate=1 (only meaningful for the empty input): no update call at all before the checksum is taken.
+  // A piece of 0 bytes is an empty update call in between; only the repeated last piece must make progress.
+  if (!(j->noupdate && n == 0)) do {
     long p = piece_at(&j->parts, pi++);
     size_t k = (p < 0 || (size_t)p > n - off) ? n - off : (size_t)p;
+    if (k == 0 && pi > j->parts.n) k = n - off;
     uint8_t* piece = (uint8_t*)malloc(k ? k : 1);
     if (k) memcpy(piece, in + off, k);
     uint64_t h0 = fnv(piece, k);
@@ -861,7 +866,6 @@ static void run_hasher(const job_t* j, const decoder_t* d, void* obj, const uint
     fprintf(g_ev, "}\n");
     free(piece);
     off += k;
-    if (k == 0 && off < n) off++;  // never loops forever on a 0 piece
   } while (off < n);
   // checksum_* is a pure method: calling it twice must give the same value
   char sum[80];
